@@ -327,5 +327,135 @@ def check(repo: Repo, run: Run) -> None:
            "annotations are loaded before values, so a binding replaces the declaration of the same name", ev.loc(init))
     lv = ev.func("NameContainer.load_values")
     s = ast.unparse(lv)
+    check_clone(repo, run)
     run.shape("C12.N4", "NameContainer.load_values", "context[final].value = refers_to" in s and "context.setdefault(final, Referent())" in s,
            "load_values sets the value on the existing Referent (declaration kept, binding wins through Referent.value)", ev.loc(lv))
+
+
+def check_clone(repo: Repo, run: Run) -> None:
+    """N6: a macro body runs on a clone of the activation; every Referent is cloned.  The clone must resolve to
+    what the original resolves to: each field the `value` getter reads is carried over on every path of clone()."""
+    from ..core.paths import flat_conds, paths_of
+
+    ev = repo.mod("evaluation")
+    cls = ev.cls("Referent")
+    meths = class_methods(cls)
+    clone_fn = meths.get("clone")
+    init = meths.get("__init__")
+    if clone_fn is None or init is None:
+        raise AnchorMissing("Referent.clone / Referent.__init__")
+    getter = setter = None
+    for n in cls.body:
+        if isinstance(n, ast.FunctionDef) and n.name == "value":
+            decos = [ast.unparse(d) for d in n.decorator_list]
+            if "property" in decos:
+                getter = n
+            elif "value.setter" in decos:
+                setter = n
+    if getter is None:
+        raise AnchorMissing("Referent.value property")
+    me = getter.args.args[0].arg
+    fields = sorted({x.attr for x in ast.walk(getter) if isinstance(x, ast.Attribute) and isinstance(x.value, ast.Name) and x.value.id == me})
+    # fields only read under a flag: field -> flag
+    guarded: Dict[str, str] = {}
+    for p in paths_of(ev, cls, getter):
+        if p.kind == "return" and isinstance(p.value, ast.Attribute) and ast.unparse(p.value.value) == me:
+            flags = [t.attr for t, pol in flat_conds(p.conds) if pol and isinstance(t, ast.Attribute) and ast.unparse(t.value) == me and t.attr != p.value.attr]
+            if flags:
+                guarded[p.value.attr] = flags[0]
+    # defaults set by __init__ and parameters stored by it
+    ime = init.args.args[0].arg
+    defaults: Dict[str, ast.expr] = {}
+    by_param: Dict[str, str] = {}
+    params = [a.arg for a in init.args.args[1:]]
+    for st in ast.walk(init):
+        if isinstance(st, (ast.Assign, ast.AnnAssign)) and st.value is not None:
+            for t in (st.targets if isinstance(st, ast.Assign) else [st.target]):
+                if isinstance(t, ast.Attribute) and isinstance(t.value, ast.Name) and t.value.id == ime:
+                    if isinstance(st.value, ast.Name) and st.value.id in params:
+                        by_param[st.value.id] = t.attr
+                    elif isinstance(st.value, ast.Constant):
+                        defaults.setdefault(t.attr, st.value)
+    # what the setter stores
+    set_fields: Dict[str, ast.expr] = {}
+    sparam = None
+    if setter is not None and len(setter.args.args) > 1:
+        sme, sparam = setter.args.args[0].arg, setter.args.args[1].arg
+        for st in setter.body:
+            if isinstance(st, (ast.Assign, ast.AnnAssign)) and st.value is not None:
+                for t in (st.targets if isinstance(st, ast.Assign) else [st.target]):
+                    if isinstance(t, ast.Attribute) and isinstance(t.value, ast.Name) and t.value.id == sme:
+                        set_fields[t.attr] = st.value
+    cme = clone_fn.args.args[0].arg
+    try:
+        paths = [p for p in paths_of(ev, cls, clone_fn) if p.kind == "return"]
+    except OverflowError:
+        run.inconclusive("C12.N6", "Referent.clone", "too many paths")
+        return
+    if not paths:
+        run.inconclusive("C12.N6", "Referent.clone", "no returning path")
+        return
+    problems: List[str] = []
+    unknown: List[str] = []
+    for p in paths:
+        rv = p.node.value if isinstance(p.node, ast.Return) else None
+        if not isinstance(rv, ast.Name):
+            unknown.append(f"returns `{ast.unparse(p.value)[:50] if p.value is not None else None}`")
+            continue
+        new = rv.id
+        ctor = strip_cast(p.env.get(new)) if p.env.get(new) is not None else None
+        conds = flat_conds(p.conds)
+
+        def cond_says(field: str, truthy: bool) -> bool:
+            for t, pol in conds:
+                txt = ast.unparse(t)
+                if txt == f"{cme}.{field}" and pol == truthy:
+                    return True
+                if txt == f"{cme}.{field} is not None" and pol == truthy:
+                    return True
+                if txt == f"{cme}.{field} is None" and pol != truthy:
+                    return True
+            return False
+
+        for f in fields:
+            src = f"{cme}.{f}"
+            stored = p.env.get(f"{new}.{f}")
+            via_prop = None
+            if stored is None and setter is not None and f in set_fields and p.env.get(f"{new}.value") is not None:
+                sv = set_fields[f]
+                via_prop = p.env[f"{new}.value"] if (isinstance(sv, ast.Name) and sv.id == sparam) else sv
+            if stored is None and via_prop is None and isinstance(ctor, ast.Call) and (dotted(ctor.func) or "").split(".")[-1] in (cls.name, "type(self)", "__class__"):
+                for i, a in enumerate(ctor.args):
+                    if i < len(params) and by_param.get(params[i]) == f:
+                        stored = a
+                for k in ctor.keywords:
+                    if k.arg and by_param.get(k.arg) == f:
+                        stored = k.value
+            val = stored if stored is not None else via_prop
+            if val is not None:
+                txt = ast.unparse(val)
+                if src in txt:
+                    continue
+                if isinstance(val, ast.Constant):
+                    # a constant agrees with the original only where the path established that the original holds it
+                    if (val.value is True and cond_says(f, True)) or (val.value in (False, None) and cond_says(f, False)):
+                        continue
+                    problems.append(f"on the path `{p.cond_text()[:70]}` the clone's {f} is the constant {val.value!r} whatever the original's {f} is")
+                    continue
+                unknown.append(f"{f} = `{txt[:50]}`")
+                continue
+            # not written on this path: the default of __init__ stands
+            d = defaults.get(f)
+            if f in guarded and cond_says(guarded[f], False):
+                continue
+            if d is not None and d.value in (False, None) and cond_says(f, False):
+                continue
+            problems.append(f"on the path `{p.cond_text()[:70]}` the clone's {f} keeps the constructor default {d.value if d is not None else '?'!r}; nothing on that path says the original's {f} is the default")
+    if problems:
+        run.ob("C12.N6", "Referent.clone|carries-binding", False,
+               "Referent.clone: " + problems[0] + " - a name bound in an outer scope resolves differently (to its declaration instead of its binding, or vice versa) inside a macro body, which runs on cloned activations",
+               ev.loc(clone_fn))
+    elif unknown:
+        run.inconclusive("C12.N6", "Referent.clone", unknown[0])
+    else:
+        run.ob("C12.N6", "Referent.clone|carries-binding", True, f"Referent.clone carries {fields} of the original on every path ({len(paths)})", ev.loc(clone_fn))
